@@ -5,6 +5,6 @@ cd "$(dirname "$0")"
 export VERIF_ROOT="$(pwd)"
 export CARGO_NET_OFFLINE=true
 export RUSTFLAGS="--cfg bigtools_verif"
-( cd sim && cargo build --release --offline --bins )
-( export RUSTFLAGS="--cfg bigtools_verif --cfg bigtools_verif_shuttle"; cd tfbshuttle && cargo build --release --offline )
+( cd sim && CARGO_TARGET_DIR="$VERIF_ROOT/target" cargo build --release --offline --bins )
+( export RUSTFLAGS="--cfg bigtools_verif --cfg bigtools_verif_shuttle"; cd tfbshuttle && CARGO_TARGET_DIR="$VERIF_ROOT/target-shuttle" cargo build --release --offline )
 echo "setup ok"
